@@ -23,6 +23,8 @@ T = {
  'C16': ("30 layout objects x 124 keys x 512 records x 2 modes: the 52 character-less keys are raw everywhere; every raw result is the key itself or a numpad key's navigation alias with NumLock off", R),
  'C17': ("both wrapper impls equal the wrapped layout on every cell (symbolic proof per arm on the generated code, plus the exhaustive table comparison); the ten layouts are pairwise distinguishable", "Coq proof: symbolic per-arm equality + reflection"),
  'C18': ("for EVERY scancode-set implementation and EVERY layout, each Keyboard operation equals the composition of the three stage functions (symbolic proof on the generated generic code; rejected frames change nothing, clear touches only the frame stage, ...); the real Keyboard is compared with three separately driven stage objects on 2.4 M (quick) per-operation cases covering every fed-stage state x input", "Coq proof: symbolic refinement to the stage composition, stages opaque and universally quantified; exhaustive per-operation differential on the crate"),
+ 'C08': ("in the checked-arithmetic model (Panic = panic, overflow, out-of-range shift, unreachable trap) no reachable call panics: both scancode decoders on every byte stream (reachable-state invariant: only 3 of 6 states occur in Set 1), the frame decoder on every bit/clear sequence and all 65536 words, the event decoder for every non-panicking layout (symbolic), all 30 layout objects on 124 x 512 x 2 cells returning valid scalar values; the same on the tables of the debug-profile crate (overflow checks on, catch_unwind); partial in one respect: stack use and code generation are outside a source-level model", "Coq proof: invariants by induction + reflection; panics modelled as an outcome"),
+ 'C20': ("rustc decides: a generated #![no_std] probe crate with one const and one static item per constructor x (10 layouts + 10 AnyLayout variants) x 2 scancode sets, const evaluation of getters and predicates, Send + Sync instantiations for every public state type (325 items); Coq carries only a model of the declarations (const-ness closed under calls, structural auto-trait rule, no manual impls) regenerated from the source, proved and required to agree", "rustc on a generated probe crate (judge) + Coq theorem about the declaration model"),
  'C19': ("both sets, all 3 prefixes x 256 codes through the decoder: make decodes to Down K iff break decodes to Up K (status codes aside); distinct complete sequences press distinct keys", R),
 }
 NOTE = "Trusted: Coq 8.16.1 kernel and vm_compute; no axioms (Print Assumptions checked on every run); translator tools/rs2v.py tied to the compiled crate by the exhaustive kernel-checked correspondence Corr/*.v; harness table dumps (Debug rendering = whole state); hand-written Spec. No extraction."
